@@ -185,6 +185,40 @@ where
         self.machines.as_ref().len()
     }
 
+    /// Read-only copy of the internal state, for external verification tooling.
+    #[cfg(feature = "verif")]
+    pub fn verif_snapshot(&self) -> crate::verif::Snapshot<T> {
+        crate::verif::Snapshot {
+            current_time: self.current_time,
+            runtime: self
+                .runtime
+                .iter()
+                .map(|r| crate::verif::RuntimeSnapshot {
+                    current_state: r.current_state,
+                    state_limit: r.state_limit,
+                    padding_sent: r.padding_sent,
+                    normal_sent: r.normal_sent,
+                    blocking_duration: r.blocking_duration,
+                    machine_start: r.machine_start,
+                    allowed_blocked_microsec: r.allowed_blocked_microsec,
+                    counter_a: r.counter_a,
+                    counter_b: r.counter_b,
+                })
+                .collect(),
+            normal_sent_packets: self.normal_sent_packets,
+            padding_sent_packets: self.padding_sent_packets,
+            blocking_duration: self.blocking_duration,
+            blocking_started: self.blocking_started,
+            blocking_active: self.blocking_active,
+            signal_pending: self.signal_pending.as_ref().map(|s| match s {
+                SignalTarget::All => None,
+                SignalTarget::AllExcept(i) => Some(*i),
+            }),
+            counter_zeroed_once: self.counter_zeroed_once,
+            framework_start: self.framework_start,
+        }
+    }
+
     /// Trigger zero or more [`TriggerEvent`] for all machines running in the
     /// framework.
     ///
@@ -370,6 +404,12 @@ where
     }
 
     fn transition(&mut self, mi: usize, event: Event) -> StateChange {
+        #[cfg(feature = "verif")]
+        crate::verif::push(crate::verif::Entry::Trans {
+            mi,
+            event: event.to_usize(),
+            state: self.runtime[mi].current_state,
+        });
         // a machine in end state cannot transition
         if self.runtime[mi].current_state == STATE_END {
             return StateChange::Unchanged;
@@ -387,6 +427,12 @@ where
         let Some(next_state) = next_state else {
             return StateChange::Unchanged;
         };
+        #[cfg(feature = "verif")]
+        crate::verif::push(crate::verif::Entry::Sampled {
+            mi,
+            event: event.to_usize(),
+            next: next_state,
+        });
 
         // we got a next state, act on it
         match next_state {
